@@ -1,8 +1,44 @@
-"""C34 - permission checks follow the declared access rules (CrossHair over the real has_perm / can_* / AccessRule /
-get_user_groups / get_user_roles / get_object_labels / Database.to_json on a real two-entity model with a subclass)."""
+"""C34 - permission checks follow the declared access rules.
+
+CrossHair harnesses (checks/h_c34.py) declare a symbolic set of two access rules through the public API
+(`db.set_perms_for(...)`, `perm(...)`, `.exclude(...)`), open a db_session on a real mapped model (A, its subclass A2, B,
+relationship A.b <-> B.a_set) and ask the REAL can_view / can_edit / can_create / can_delete (has_perm), Database.to_json
+and the schema filter; the answers are compared with a reference evaluation of the documented rule semantics written in
+the harness module.  See the docstring of checks/h_c34.py for the reference, the recorded interpretation of the
+relationship rule (modes exact / deny / grant) and the deviations from DESIGN.md.
+"""
 import os
 from engine.core import Report
 from engine import ch
+
+BOUNDS = {
+    'model': 'A(id, x, h hidden, b -> B), A2(A)(y), B(id, a_set -> A); objects a=A[1] (a.b = b), a2=A2[2], b=B[1]; two declared rules',
+    'entity_p1_view / entity_p1_edit': 'rule 1: permission fixed (view / edit), entities {A | B | A,B}, group matched or not, excluded entity '
+        '{none, A, B, A2}; rule 2: permission {view, edit}, same selectors, plus a role, a label and an excluded attribute that an '
+        'entity answer must ignore; targets A, A2, B x can_view/edit/create/delete. 1152 paths each '
+        '(thorough: entities + {A2 | A2,B}, permissions of rule 2 {view, edit, create, delete}: 6400 paths)',
+    'attr_<mode>_e1_<A|B|AB>': 'mode exact/deny/grant x entities of rule 1 fixed; both rules: group matched or not, excluded entity '
+        '{none, A, B}, excluded attribute {none, A.b, B.a_set}; rule 2 entities {A | B | A,B}; both rules grant view; targets: all 8 '
+        'attributes (pk, plain, hidden, discriminator, subclass attribute, both relationship sides) x can_view, can_edit. 972 paths each '
+        '(thorough: excluded attribute + {A.x, A2.y}, rule 2 permission {view, edit}: 5400 paths)',
+    'object_conditions': 'rules on (A,B) and (A): group / role / label requirement of both rules, user in group, role and label '
+        'present (distributed differently over a, a2, b): 9 booleans, 512 paths',
+    'object_exclusions(_rest)': 'both rules: entities {A | B | A,B}, matched or not, excluded entity {none, A, B, A2}: 576 paths; '
+        '_rest leaves out objects whose entity some rule excludes',
+    'object_userkinds': 'user None / plain object / the object a / the object b; rule role {none, self, r, r+self}; user has r; rule '
+        'group g1 or none; g1 returned by the any-user getter / by the getter registered for class User: 256 paths; objects and entities',
+    'groups': 'one rule; its groups, the any-user getter result and the User-class getter result range over the subsets of {n1, n2} '
+        '(getter forms None / single name / set); user None / plain / entity instance: 192 paths; entity, attribute and object targets',
+    'roles / labels': 'one rule; required names, names on a, names on b range over the subsets of {n1, n2}: 128 / 128 paths',
+    'permissions': 'two rules, permission text of each in {view, edit, create, delete, "view edit", "edit,delete"}, matched or not, '
+        'rule 2 on (A) or (A,B): 288 paths; entity and object targets x the four can_* functions',
+    'to_json_objects(_rest)': 'to_json([a]) / ([a], include=[A.b]) / ({"x": b}, include=[B.a_set]) / ([a2, b]); rule 1 (view): entities '
+        '{A | B | A,B}, matched, excluded entity {none, A, B}; rule 2 (edit): entities {B | A,B}, matched, excluded {none, A, B}: 864 paths '
+        '(thorough: 2304)',
+    'schema': 'rule 1 as in attr_*, rule 2: entities {A | B | A,B}, always matched, excluded attribute {none, A.b, B.a_set}: 486 paths',
+    'every harness': 'each question is asked twice in the session (second pass in reverse order) and, when two rules share a rule set, '
+        'again in a fresh session with the rules re-declared so that the set iterates in the opposite order',
+}
 
 
 def classify(spec, cex):
@@ -11,22 +47,91 @@ def classify(spec, cex):
 
 
 def run(tier, seed, only=None):
-    if tier == 'thorough': os.environ['C34_TIER'] = 'thorough'       # read by checks/h_c34.py in the worker processes
+    if tier == 'thorough': os.environ['C34_TIER'] = 'thorough'       # read by checks/h_c34.py, also in the worker processes
+    os.environ.pop('C34_MUTANT', None)                                # canary hook (development only) is never active here
     from checks import h_c34 as h
     from pony.orm import core
     rep = Report('C34', 'other',
                  'CrossHair over harnesses that declare a symbolic rule set through the public API (set_perms_for / perm / exclude), '
-                 'open a db_session on the real model and ask the real can_view/can_edit/can_create/can_delete, Database.to_json and '
-                 'the schema filter; asserted against a reference evaluation of the documented rule semantics, for entity, attribute '
-                 'and object targets, twice per session and under both iteration orders of the rule sets.')
-    rep.fn(core.has_perm, core.can_view, core.can_edit, core.can_create, core.can_delete, core.perm, core.AccessRule.__init__,
-           core.AccessRule.exclude, core.get_user_groups, core.get_user_roles, core.get_object_labels, core.user_groups_getter,
-           core.user_roles_getter, core.obj_labels_getter, core.Database.set_perms_for, core.Database.to_json, core.Database._get_schema_dict)
+                 'open a db_session on a real mapped model and ask the real can_view/can_edit/can_create/can_delete (has_perm), '
+                 'Database.to_json and the schema filter; asserted against a reference evaluation of the documented rule semantics '
+                 'for entity, attribute and object targets, every question twice per session and under both iteration orders of '
+                 'the rule sets.  Only "Confirmed over all paths" counts as holding.')
+    rep.fn(core.has_perm, core.can_view, core.can_edit, core.can_create, core.can_delete, core.perm, core._split_names,
+           core.pop_names_from_kwargs, core.AccessRule.__init__, core.AccessRule.exclude, core.get_user_groups, core.get_user_roles,
+           core.get_object_labels, core.user_groups_getter, core.user_roles_getter, core.obj_labels_getter,
+           core.Database.set_perms_for, core.Database.to_json, core.Database._get_schema_dict)
     T = 150 if tier == 'quick' else 900
     specs = [dict(module='checks.h_c34', fn=f, cond_timeout=T, path_timeout=T / 2, setup='setup') for f in h.HARNESSES]
     if only: specs = [s for s in specs if only in s['fn']]
-    rep.bounds = {}
-    rep.assumptions = []
-    rep.trusted = ['crosshair-tool 0.0.110', 'z3', 'reference evaluation ref_entity/ref_object/ref_attr/schema_expected in checks/h_c34.py']
+    rep.bounds = dict(BOUNDS, tier=tier)
+    rep.assumptions = [
+        'the rule sets of A, A2, B (entity._access_rules_) are emptied and the thread-local group/role caches cleared at the start of every explored path; '
+        'the getter registries hold exactly the four getters of the harness module',
+        'all symbolic inputs are small selectors that are realised while the declarations are decoded; from then on the real code runs on concrete '
+        'values. CrossHair\'s tracer is ON for the first pass of can_*/to_json/_get_schema_dict calls of the first rule order (and for the '
+        'declarations in groups, roles, labels, permissions, object_userkinds) and OFF for scaffolding: db_session enter/exit, object creation, the repeated '
+        'pass, the run under the reversed rule order, the reference evaluation (measured: 12-25 paths/s instead of 3-6)',
+        'rule order: AccessRule objects are hashed by identity; the harness re-declares the same rules (keeping the old objects alive) until every two-rule set '
+        'iterates in reverse order, and requires the same answers for both orders',
+        'relationship attributes: `exact` uses the AND reading (both sides must be granted); `deny`/`grant` are the reading-independent bounds (module docstring of checks/h_c34.py)',
+        'roles and labels are not consulted for entity and attribute targets (there is no object); a rule that asks for a role still grants the entity-level answer',
+        'Database over the real SQLiteProvider with a fake pool (engine.env.mock_database); no SQL is needed: objects are created in the session and rolled back',
+    ]
+    rep.trusted = ['crosshair-tool 0.0.110', 'z3', 'reference evaluation (ref_entity / ref_object / side / ref_attr / schema_expected) and the model facts '
+                   '(SUB, ATTR_ENT, REVERSE, HIDDEN) in checks/h_c34.py']
     ch.run_harnesses(rep, specs, classify)
+    if not only:
+        tie_declaration_errors(rep)
     return rep
+
+
+def tie_declaration_errors(rep):
+    """Concrete tie (NOT solver-quantified): declarations the API must refuse, and has_perm on a non-target."""
+    from engine.core import Ob, HOLDS, CEX
+    from checks import h_c34 as h
+    from pony.orm import core
+    h.setup()
+    h.reset_rules()
+
+    def refused(f, exc):
+        try: f()
+        except exc: return True
+        except Exception: return False
+        return False
+
+    def excl_pk():
+        with h.db.set_perms_for(h.A): core.perm('view').exclude(h.A.id)
+
+    def excl_other():
+        with h.db.set_perms_for(h.A): core.perm('view').exclude('A.x')
+
+    def no_perm():
+        with h.db.set_perms_for(h.A): core.perm()
+
+    def bad_kw():
+        with h.db.set_perms_for(h.A): core.perm('view', grp='g')
+
+    def bad_name():
+        with h.db.set_perms_for(h.A): core.perm('view', group='not an identifier!')
+
+    def nested():
+        with h.db.set_perms_for(h.A):
+            with h.db.set_perms_for(h.B): pass
+
+    def no_entity():
+        with h.db.set_perms_for(): pass
+
+    def target():
+        with core.db_session: core.has_perm(None, 'view', 'A')
+    cases = [('exclude(primary key) is refused', excl_pk, TypeError), ('exclude(non-attribute) is refused', excl_other, TypeError),
+             ('perm() without a permission is refused', no_perm, TypeError), ('perm(unknown keyword) is refused', bad_kw, TypeError),
+             ('group name that is not an identifier is refused', bad_name, TypeError), ('nested set_perms_for is refused', nested, core.OrmError),
+             ('set_perms_for() without entities is refused', no_entity, TypeError), ('perm() outside set_perms_for is refused', lambda: core.perm('view'), core.OrmError),
+             ('has_perm on a non-target is refused', target, TypeError)]
+    for name, f, exc in cases:
+        good = refused(f, exc)
+        core.local.perms_context = None
+        rep.add(Ob('tie: ' + name, 'concrete-tie', HOLDS if good else CEX, cex=None if good else {'case': name}, reproduced=True,
+                   detail='' if good else 'not refused with %s' % exc.__name__))
+    h.reset_rules()
